@@ -478,4 +478,4 @@ def shrink_candidates(cfg, violation):
 
 
 def evidence(tier, results, counters):
-    return {}
+    return {"simulated_time": "not applicable: no clock or timer enters this property; progress is counted in sampler iterations (simulated_steps) and logged events"}
